@@ -59,7 +59,7 @@ def strategy_(draw, tier):
     case["batch"] = draw(st.integers(1, 3))
     case["choices"] = draw(schedule())
     case["kind"] = "sim"
-    case["via"] = draw(st.sampled_from(["api", "api", "api", "cli"]))
+    case["via"] = draw(st.sampled_from(["api", "api", "api", "cli", "cli_stdout"]))
     if draw(st.integers(0, 3)) == 0:
         # all workers descheduled (or one slow alignment): up to 150 consecutive empty polls, starting at a drawn poll
         case["stall"] = [draw(st.integers(1, 12)), draw(st.sampled_from([5, 45, 130, 150]))]
